@@ -1043,11 +1043,28 @@ def unlock_rule(ctx, rid, cls):
         ok = False
         if len(rets) == 1:
             e = unwrap(f, f.children(rets[0])[0])
-            if e is not None and e["k"] == "BinaryOperator" and e["op"] == "!=":
+
+            def is_data_test(x):
+                x = unwrap(f, x)
+                if x is not None and x["k"] == "BinaryOperator" and x["op"] == "!=":
+                    l, r = f.children(x)
+                    return {path(f, l) or unwrap(f, l)["k"], path(f, r) or unwrap(f, r)["k"]} == {"this.data", "CXXNullPtrLiteralExpr"}
+                return x is not None and path(f, x) == "this.data"
+
+            def about_own_lock(x):
+                # a further condition may only look at the handle's own lock object (owns_lock(), mutex()): then `true`
+                # still implies a non-null pointer, and a handle that holds its lock and has its pointer is still `true`
+                x = unwrap(f, x)
+                fields = {d["m"]["name"] for d in [x] + list(f.descendants(x)) if d is not None and d["k"] == "MemberExpr" and d["m"].get("is_field")}
+                calls_ = {(d.get("callee") or {}).get("name") for d in [x] + list(f.descendants(x)) if d is not None and d["k"] in CALLS}
+                return fields <= {"m_handle_lock"} and calls_ <= {"owns_lock", "mutex", "operator bool", None} and bool(fields)
+            if is_data_test(e):
+                ok = True
+            elif e is not None and e["k"] == "BinaryOperator" and e.get("op") == "&&":
                 l, r = f.children(e)
-                ops = {path(f, l) or unwrap(f, l)["k"], path(f, r) or unwrap(f, r)["k"]}
-                ok = ops == {"this.data", "CXXNullPtrLiteralExpr"}
-        ctx.ob(rid, ok, f.where, "operator bool returns (data != nullptr)", "" if ok else "different expression",
+                ok = (is_data_test(l) and about_own_lock(r)) or (is_data_test(r) and about_own_lock(l))
+        ctx.ob(rid, ok, f.where, "operator bool is true only for a handle with a pointer (data != nullptr, possibly and-ed with a test "
+               "of its own lock)", "" if ok else "different expression",
                fn=f.label, inst=f.qname)
     if n == 0:
         ctx.broken("no unlock()/operator bool instantiation of %s" % cls)
